@@ -2,6 +2,7 @@ import FimVerif.Proofs.Lemmas.StoreIdentOps
 import FimVerif.Proofs.Lemmas.StoreNidOps
 import FimVerif.Proofs.Lemmas.StoreMerge
 import FimVerif.Proofs.Lemmas.StoreRefineAll
+import FimVerif.Proofs.Lemmas.StoreMergeFrame
 /-!
 # C05 — in-memory graph backends agree with each other and with the documented semantics
 
@@ -168,6 +169,14 @@ theorem merge_failure_atomic (s : Store) (g nid g2 : String) (pol : Option (List
             · rename_i np hnp; simp [hnp] at hf
         · rfl
 
+/-- **merge_frame.**  `merge_nodes` touches only the two graphs it names: the content of every third graph
+    is unchanged, whether the merge succeeds or fails (policy not rewriting `GraphID`/`NodeID`). -/
+theorem merge_frame (s : Store) (h : Store.Inv s) (g nid g2 g' : String) (pol : Option (List (String × Policy)))
+    (hk : (Op.mergeNodes g nid g2 pol).keepsKeys = true) (h1 : g' ≠ g) (h2 : g' ≠ g2) :
+    Store.abs (mergeNodes g nid g2 pol s).2 g' = Store.abs s g' := by
+  have := Store.frame_mergeNodes s h g nid g2 g' pol hk h1 h2
+  simp only [Store.abs, this.1, this.2]
+
 /-! ## both backends refine the reference model of the documented interface
 
 `AGraph.covers op`: `op` is part of the reference interface (every operation of C05's alphabet except
@@ -206,6 +215,27 @@ theorem disjoint_refines_spec (op : Op) (d : DStore.DStore) (h : DStore.Inv d) (
     outAbs (DStore.step op d).1 = (AGraph.step op AGraph.empty (DStore.abs d op.target)).1 ∧
     DStore.abs (DStore.step op d).2 op.target = (AGraph.step op AGraph.empty (DStore.abs d op.target)).2 :=
   DStore.refines_step op d h hs hk
+
+/-- … and over histories of single-graph operations, for every graph id at once (the graph stored under
+    another id is untouched: `C04.dframe`) -/
+theorem disjoint_refines_history (ops : List Op) (d : DStore.DStore) (h : DStore.Inv d)
+    (hops : ∀ o ∈ ops, o.WF = true ∧ DStore.single o = true ∧ o.keepsKeys = true) :
+    (fun g => DStore.abs (DStore.run ops d) g) =
+      ops.foldl (fun σ o => fun g => if g = o.target then (AGraph.step o AGraph.empty (σ o.target)).2 else σ g)
+        (fun g => DStore.abs d g) := by
+  induction ops generalizing d with
+  | nil => rfl
+  | cons o r ih =>
+    have ho := hops o (by simp)
+    simp only [DStore.run, List.foldl_cons]
+    have := ih (DStore.step o d).2 (DStore.inv_step o d h ho.1) (fun o' ho' => hops o' (by simp [ho']))
+    simp only [DStore.run] at this
+    rw [this]
+    congr 1
+    funext g
+    by_cases e : g = o.target
+    · simp only [e, if_true]; exact (disjoint_refines_spec o d h ho.2.1 ho.2.2).2
+    · simp only [e, if_false, DStore.abs, DStore.frame_step o d g e]
 
 /-- **backends_agree.**  If the addressed graph has the same content in both stores, one call returns the
     same result (value or error kind) on both and leaves the graph with the same content on both. -/
